@@ -8,6 +8,7 @@ import os
 import posixpath
 import re
 import subprocess
+import sys
 import time
 
 import idl
@@ -445,7 +446,7 @@ def clip(s, n):
     return s if len(s) <= n else s[:n // 2] + "\n...[%d bytes left out]...\n" % (len(s) - n) + s[-n // 2:]
 
 
-def observe(binary, argv, cwd, prog, out="out", limit=30.0, long_limit=600.0, env=None):
+def observe(binary, argv, cwd, keys, out="out", limit=30.0, long_limit=600.0, env=None):
     """one run of thriftgo. A run that exceeds `limit` is repeated once with `long_limit` (a loaded machine
     must not turn a slow crash into a hang); only a run that exceeds that too is a hang."""
     out_dir = os.path.join(cwd, out)
@@ -466,7 +467,8 @@ def observe(binary, argv, cwd, prog, out="out", limit=30.0, long_limit=600.0, en
                    time.time() - t0)
     rc, so, se, wall = res
     text = so + "\n" + se
-    keys = go_file_keys(prog)
+    if "files" in keys:            # a program JSON instead of the key table
+        keys = go_file_keys(keys)
     files = []
     others = []
     if os.path.isdir(out_dir):
@@ -540,3 +542,32 @@ def same_mechanism(model, observed):
     """the diagnostic does not tell at which stage an option / a backend name was rejected"""
     n = lambda m: m.replace("targets.options", "backend.options").replace("targets.lang", "backend.lang")  # noqa: E731
     return n(model) == n(observed)
+
+
+def run_manifest(manifest, out, workers):
+    """Executes the runs of a manifest (ndjson: id, binary, argv, cwd, keys, out, limit) and writes one observation
+    per line. Runs as a process of its own (python3 c04_model.py run ...): spawning thousands of children from the
+    check's process, whose heap holds the whole universe, costs a page-table copy each."""
+    import concurrent.futures
+    import json
+    import shutil
+    rows = [json.loads(ln) for ln in open(manifest) if ln.strip()]
+
+    def one(r):
+        o = observe(r["binary"], r["argv"], r["cwd"], r["keys"], out=r["out"], limit=r.get("limit", 30.0))
+        shutil.rmtree(os.path.join(r["cwd"], r["out"]), ignore_errors=True)
+        o["id"] = r["id"]
+        return o
+    with open(out, "w") as fh, concurrent.futures.ThreadPoolExecutor(max_workers=workers) as ex:
+        for k, o in enumerate(ex.map(one, rows), 1):
+            fh.write(json.dumps(o) + "\n")
+            if k % 5000 == 0:
+                print("[verif] %d / %d runs done" % (k, len(rows)), file=sys.stderr, flush=True)
+
+
+if __name__ == "__main__":
+    import sys
+    if len(sys.argv) == 5 and sys.argv[1] == "run":
+        run_manifest(sys.argv[2], sys.argv[3], int(sys.argv[4]))
+    else:
+        sys.exit("usage: c04_model.py run <manifest.ndjson> <observations.ndjson> <workers>")
